@@ -132,7 +132,7 @@ impl T {
 		if self.primary() && o.primary() && sum_is_exact(self.v, o.v, v) {
 			return T::new(v, DERIVED_EXACT);
 		}
-		T::new(v, self.e + o.e + U * v.abs())
+		T::new(v, self.e + o.e + U * v.abs() + ETA)
 	}
 	#[inline]
 	pub fn sub(self, o: T) -> T {
@@ -140,7 +140,7 @@ impl T {
 		if self.primary() && o.primary() && sum_is_exact(self.v, -o.v, v) {
 			return T::new(v, DERIVED_EXACT);
 		}
-		T::new(v, self.e + o.e + U * v.abs())
+		T::new(v, self.e + o.e + U * v.abs() + ETA)
 	}
 	#[inline]
 	pub fn neg(self) -> T {
@@ -149,13 +149,13 @@ impl T {
 	#[inline]
 	pub fn mul(self, o: T) -> T {
 		let v = self.v * o.v;
-		T::new(v, self.v.abs() * o.e + o.v.abs() * self.e + self.e * o.e + U * v.abs())
+		T::new(v, self.v.abs() * o.e + o.v.abs() * self.e + self.e * o.e + U * v.abs() + ETA)
 	}
 	/// multiplication by a constant (the constant itself may carry one rounding, e.g. a stored reciprocal)
 	#[inline]
 	pub fn scale(self, c: f64) -> T {
 		let v = self.v * c;
-		T::new(v, c.abs() * self.e + 2.0 * U * v.abs())
+		T::new(v, c.abs() * self.e + 2.0 * U * v.abs() + ETA)
 	}
 	#[inline]
 	pub fn div(self, o: T) -> T {
@@ -163,7 +163,7 @@ impl T {
 			return T::UND;
 		}
 		let q = self.v / o.v;
-		T::new(q, (self.e + q.abs() * o.e) / (o.v.abs() - o.e) + U * q.abs())
+		T::new(q, (self.e + q.abs() * o.e) / (o.v.abs() - o.e) + U * q.abs() + ETA)
 	}
 	#[inline]
 	pub fn abs(self) -> T {
